@@ -6,7 +6,7 @@ import os
 import subprocess
 import sys
 
-from mc import lit, recs
+from mc import envleg, lit, recs
 from mc.alphabets import LISTABLE, TYPE_ALPHABET, alphabet
 from mc.recs import rs
 from mc.report import Run, jhash
@@ -132,6 +132,8 @@ def small(v):
 
 
 def run_case(case):
+    if case.get("env") and not envleg.in_env(case):
+        return envleg.run_single("checks.c12", case)
     if case["kind"] == "type":
         return run_type(case)
     if case["kind"] == "scope":
@@ -304,6 +306,8 @@ def run_scope(case):
     base.set_ignored_fields_for_comparison([])
     stack = []  # (cm, value at enter)
     states = []
+    if set(base.IGNORE_FIELDS_FOR_COMPARISON):
+        viol.append(("C12:scope:set:not-applied", case, {"step": -1, "got": sorted(base.IGNORE_FIELDS_FOR_COMPARISON), "want": []}))
     try:
         for i, ev in enumerate(case["events"]):
             if ev[0] == "set":
@@ -416,6 +420,10 @@ def main(tier, seed, workers=None):
     run.assumptions = ["reference equality = same (name, ordered fields) and Python equality of field values by documented content (digest triple, "
                        "address objects, command executable/args/flavour); NaN is unequal to NaN"]
     explore(run, cases(tier, seed), run_case, workers, chunk=8, reversed_pass=(tier == "thorough"))
+    # the same machinery in child interpreters that were started with FLOW_RECORD_IGNORE set (read once, at import)
+    shallow = [{"kind": "scope", "events": hst} for hst in scope_histories(4)] + [c for c in cases("quick", seed) if c["kind"] == "struct"][:40]
+    for env in ({"FLOW_RECORD_IGNORE": "_generated,x"}, {"FLOW_RECORD_IGNORE": "_source"}):
+        envleg.explore_env(run, "checks.c12", shallow, env, workers)
     if run.state_hashes:
         run.extra["scope_machine_states"] = len(run.state_hashes)
         run.extra["scope_machine_transitions"] = run.extra.get("scope_events", 0)
